@@ -202,6 +202,8 @@ def check(rep, F, tier, replay=None):
     value_sub_total_rule(rep, F)
     from ruleutil import int_range_rule
     int_range_rule(rep, F)
+    from ruleutil import value_iter_rule
+    value_iter_rule(rep, F)
     return rep.finish(
         EXPLANATION,
         ["BigNum's checked_* delegate to u64::checked_* (std)", "num-bigint arithmetic is exact", "wasm32 makes usize 32-bit: casts involving usize are marked target dependent in the table"],
